@@ -63,7 +63,9 @@ ERRORS = {
 
 
 # constructs cut off right before their closing token: injected as the LAST thing of the source, with nothing (not even a newline) after them
-TRUNCATED = ["load(1, 2", "lda [0x10", ".macro other", ".macro other(a", ".macro other(a)", "{{ name", "lda (0x10", "m(1,", "lda #", ".db 1,", ".if 1 {", ".for k := 0,", "x :=", "lda.w", ".scope s"]
+TRUNCATED = ["load(1, 2", "lda [0x10", ".macro other", ".macro other(a", ".macro other(a)", "{{ name", "lda (0x10", "m(1,", "lda #", ".db 1,", ".if 1 {", ".for k := 0,", "x :=", "lda.w", ".scope s",
+             # the LAST statement of the source runs off the end of the mapped address space (bank 0x70 / 0xD0 are unmapped under LoROM): an unmapped-address error
+             "*=0x6FFFFE\nlda.l 0x123456\n", "*=0xCFFFFE\nlda.l 0x123456\n", "*=0x6FFFFF\n.dw 0x1234\n", "*=0x6FFFFD\n.dl 1\n.db 2\n"]
 
 
 def materialise_includes(err, wd):
